@@ -140,10 +140,15 @@ Definition near_seg (tn td : Z) (k : Z) (p : zpt) (s : seg) : bool :=
 Definition near_any (tn td k : Z) (ss : list seg) (p : zpt) : bool := existsb (near_seg tn td k p) ss.
 Fixpoint pairs {A} (l : list A) : list (A * A) :=
   match l with [] => [] | a :: t => map (pair a) t ++ pairs t end.
-(* doubled midpoints of all pairs of {ends of s} ∪ {given vertices within tolerance of s} *)
+(* doubled midpoints of consecutive points of {ends of s} ∪ {given vertices within tolerance of s}, ordered along s *)
+Fixpoint cons_mids (l : list (Z * zpt)) : list zpt :=
+  match l with
+  | x :: (y :: _) as r => (fst (snd x) + fst (snd y), snd (snd x) + snd (snd y)) :: cons_mids r
+  | _ => []
+  end.
 Definition cover_samples (tn td : Z) (W : list zpt) (s : seg) : list zpt :=
   let ps := fst s :: snd s :: filter (fun w => near_seg tn td 1 w s) W in
-  map (fun uv => (fst (fst uv) + fst (snd uv), snd (fst uv) + snd (snd uv))) (pairs ps).
+  cons_mids (sort_k (map (fun p => (tpar (fst s) (snd s) p, p)) ps)).
 Definition mid2 (s : seg) : zpt := (fst (fst s) + fst (snd s), snd (fst s) + snd (snd s)).
 
 (* zero-length segments (repeated points, which the noder keeps) are points of the linework, not segments *)
